@@ -186,7 +186,7 @@ func shardStress(seed uint64, index string, ms int) string {
 
 // fieldRace: goroutines write a new field with different types at the same time; afterwards
 // the field has one type and only values of that type.
-func fieldRace(seed uint64, index string) string {
+func fieldRace(seed uint64, index string, rounds int) string {
 	dir, _ := os.MkdirTemp(shardh.WorkDir("stress"), "f-")
 	defer os.RemoveAll(dir)
 	h, err := shardh.New(dir, index)
@@ -194,11 +194,12 @@ func fieldRace(seed uint64, index string) string {
 		return "err:" + strings.ReplaceAll(err.Error(), " ", "_")
 	}
 	defer h.Close()
-	for round := 0; round < 20; round++ {
+	for round := 0; round < rounds; round++ {
 		field := fmt.Sprintf("f%d", round)
 		vals := []interface{}{float64(1.5), int64(7), "s", true}
 		var wg sync.WaitGroup
 		var okCount int64
+		var accepted [4]int32
 		for g, v := range vals {
 			wg.Add(1)
 			go func(g int, v interface{}) {
@@ -207,13 +208,18 @@ func fieldRace(seed uint64, index string) string {
 				p, _ := models.NewPoint("m", tags, models.Fields{field: v}, time.Unix(0, base+int64(g)))
 				if err := h.Store.WriteToShard(shardh.ShardID, []models.Point{p}); err == nil {
 					atomic.AddInt64(&okCount, 1)
+					atomic.StoreInt32(&accepted[g], 1)
 				}
 			}(g, v)
 		}
 		wg.Wait()
 		if okCount != 1 {
 			// exactly one type can win; the writes of the other types are rejected
-			return fmt.Sprintf("FIELD %d_of_4_conflicting_first_writes_to_a_new_field_were_accepted", okCount)
+			typ := "none"
+			if mf := h.Shard().MeasurementFields([]byte("m")); mf != nil && mf.Field(field) != nil {
+				typ = mf.Field(field).Type.String()
+			}
+			return fmt.Sprintf("FIELD %d_of_4_conflicting_first_writes_to_a_new_field_were_accepted_(round_%d,_accepted_float/int/string/bool=%v,_field_type_now_%s)", okCount, round, accepted, typ)
 		}
 		sh := h.Shard()
 		mf := sh.MeasurementFields([]byte("m"))
@@ -340,7 +346,11 @@ func runOp(op string) (out string) {
 	case "stress-shard":
 		return shardStress(uint64(i64(f[1])), f[2], int(i64(f[3])))
 	case "stress-field":
-		return fieldRace(uint64(i64(f[1])), f[2])
+		rounds := 600
+		if len(f) > 3 {
+			rounds = int(i64(f[3]))
+		}
+		return fieldRace(uint64(i64(f[1])), f[2], rounds)
 	case "stress-hh":
 		return hhStress(uint64(i64(f[1])), int(i64(f[2])))
 	}
@@ -364,14 +374,14 @@ func (Prop) Generate(r *fw.Rand, tier string) []fw.Case {
 	for i := 0; i < n; i++ {
 		idx := []string{"inmem", "tsi1"}[i%2]
 		cases = append(cases, fw.Case{Ops: []string{fmt.Sprintf("stress-shard %d %s %d", r.Intn(1000), idx, ms)}, Tags: []string{"shard"}})
-		cases = append(cases, fw.Case{Ops: []string{fmt.Sprintf("stress-field %d %s", r.Intn(1000), idx)}, Tags: []string{"field"}})
+		cases = append(cases, fw.Case{Ops: []string{fmt.Sprintf("stress-field %d %s %d", r.Intn(1000), idx, ms*2)}, Tags: []string{"field"}})
 		cases = append(cases, fw.Case{Ops: []string{fmt.Sprintf("stress-hh %d %d", r.Intn(1000), ms)}, Tags: []string{"hh"}})
 	}
 	return cases
 }
 
 func (Prop) Describe(cfg *fw.Config) {
-	cfg.Rule = "stress scenarios on real components: (shard) 4 writers with their own series, a snapshotter, a compactor of all files, a writer+deleter of another measurement and 2 readers on one shard for 0.4 s (quick) / 1.5 s (thorough), inmem and tsi1: every read must hold all points acknowledged before it began, and at rest and after a reopen all acknowledged points; (field) 20 rounds of 4 goroutines writing one new field with four different types: exactly one is accepted and exactly its value is readable; (hh) 4 appenders and a drainer on a hinted-handoff queue with 4 KB segments: every acknowledged block is drained once, in per-appender order; a watchdog reports workers that do not stop; thorough tier: the harness is built with the Go race detector (a report ends the run); non-trivial = every scenario; distinct = distinct op list"
+	cfg.Rule = "stress scenarios on real components: (shard) 4 writers with their own series, a snapshotter, a compactor of all files, a writer+deleter of another measurement and 2 readers on one shard for 0.4 s (quick) / 1.5 s (thorough), inmem and tsi1: every read must hold all points acknowledged before it began, and at rest and after a reopen all acknowledged points; (field) 800 (quick) / 3000 (thorough) rounds of 4 goroutines writing one new field with four different types: exactly one is accepted and exactly its value is readable; (hh) 4 appenders and a drainer on a hinted-handoff queue with 4 KB segments: every acknowledged block is drained once, in per-appender order; a watchdog reports workers that do not stop; thorough tier: the harness is built with the Go race detector (a report ends the run); non-trivial = every scenario; distinct = distinct op list"
 }
 
 func (Prop) Trivial(c fw.Case, out []string) bool { return false }
